@@ -430,6 +430,13 @@ func fileSeek(L *LState) int {
 	var pos int64
 	var err error
 
+	// bytes still held by a buffered writer belong at the old position
+	if bwriter, ok := file.writer.(*bufio.Writer); ok {
+		if err = bwriter.Flush(); err != nil {
+			goto errreturn
+		}
+	}
+
 	err = file.AbandonReadBuffer()
 	if err != nil {
 		goto errreturn
